@@ -25,60 +25,3 @@ Proof.
   assert (Hi : 0 < / sqrt 3) by (apply Rinv_0_lt_compat; exact Hb).
   unfold Rdiv in E. rewrite Rmult_0_l in E. set (k := / sqrt 3) in *. lra.
 Qed.
-
-(* ---------------------------------------------------------------- second finding: the absolute parallelism guard *)
-(* FULL statement (fails): every non-degenerate triangle has a circumcentre computed,
-     forall A B C, 0 < |(B-A) x (C-A)|^2 -> exists c, g_circumcenter A B C = Some c
-   (with C07_circumcenter this would make face_circumcenter correct on all non-degenerate meshes and, in particular,
-   scale-equivariant).  intersect_2lines2D declares two lines parallel when |det(d1,d2)| < 1e-12 - an ABSOLUTE
-   threshold on a quantity that scales with the square of the triangle's size (|det| = twice its area): a perfectly
-   shaped right triangle with legs e has no circumcentre as soon as e^2 < 1e-12 (the Python code then raises
-   AttributeError on None.x). *)
-Lemma normalized_axis (k : R) (u : V3) : 0 < k -> n2 u = 1 -> normalized Rops (vscale Rops k u) = u.
-Proof.
-  intros Hk Hu. unfold normalized. rewrite norm_unfold.
-  assert (E : n2 (vscale Rops k u) = (k * k) * n2 u) by (dvec u; unfR; ring).
-  rewrite E, Hu, Rmult_1_r, sqrt_square by lra. dvec u. unfR. apply vec_eq3; field; lra.
-Qed.
-
-Lemma circumcenter_tiny (e : R) : 0 < e -> e * e < 1 / 1000000000000 ->
-  g_circumcenter Rops (0, 0, 0) (e, 0, 0) (0, e, 0) = None.
-Proof.
-  intros He Hsmall. unfold g_circumcenter.
-  assert (FB : g_face_basis Rops (0, 0, 0) (e, 0, 0) (0, e, 0) = ((1, 0, 0), (0, 1, 0), (0, 0, 1))).
-  { unfold g_face_basis. cbv zeta.
-    assert (X : normalized Rops ((e, 0, 0) -v (0, 0, 0)) = (1, 0, 0)).
-    { replace ((e, 0, 0) -v (0, 0, 0)) with (vscale Rops e (1, 0, 0)) by (unfR; apply vec_eq3; ring).
-      apply normalized_axis; [assumption|unfR; ring]. }
-    rewrite X.
-    assert (Z : normalized Rops (cross (1, 0, 0) ((0, e, 0) -v (0, 0, 0))) = (0, 0, 1)).
-    { replace (cross (1, 0, 0) ((0, e, 0) -v (0, 0, 0))) with (vscale Rops e (0, 0, 1)) by (unfR; apply vec_eq3; ring).
-      apply normalized_axis; [assumption|unfR; ring]. }
-    rewrite Z.
-    assert (Y : normalized Rops (cross (0, 0, 1) (1, 0, 0)) = (0, 1, 0)).
-    { replace (cross (0, 0, 1) (1, 0, 0)) with (vscale Rops 1 (0, 1, 0)) by (unfR; apply vec_eq3; ring).
-      apply normalized_axis; [lra|unfR; ring]. }
-    rewrite Y. reflexivity. }
-  rewrite FB. cbv zeta. unfold g_intersect_2lines2D.
-  match goal with |- context [oleb Rops ?a ?b] => assert (G : oleb Rops a b = false) end.
-  { unfold Rops at 1, Rleb. cbn [oleb]. destruct (Rle_dec _ _) as [L|L]; [|reflexivity]. exfalso.
-    rewrite oabs_Rabs in L.
-    match type of L with _ <= Rabs ?d => replace d with (e * e) in L
-      by (unfold g_det2, wsub, dot; unfR; cbn [fst snd]; ring) end.
-    rewrite Rabs_right in L by nra.
-    replace (odiv Rops (oZ Rops 1) (oZ Rops 1000000000000)) with (1 / 1000000000000) in L
-      by (rewrite !oZ_IZR; reflexivity).
-    lra. }
-  rewrite G. reflexivity.
-Qed.
-
-Lemma circumcenter_guard_refuted :
-  exists A B C : V3, 0 < n2 (cross (B -v A) (C -v A)) /\ g_circumcenter Rops A B C = None.
-Proof.
-  exists (0, 0, 0), (/ 10000000, 0, 0), (0, / 10000000, 0).
-  assert (He : 0 < / 10000000) by (apply Rinv_0_lt_compat; lra).
-  split; [unfR; nra|]. apply circumcenter_tiny; [exact He|].
-  replace (/ 10000000 * / 10000000) with (1 / 100000000000000) by field. 
-  apply Rmult_lt_reg_r with 100000000000000; [lra|]. unfold Rdiv. rewrite Rmult_assoc, Rinv_l by lra. 
-  replace (1 * / 1000000000000 * 100000000000000) with 100 by field. lra.
-Qed.
